@@ -4,7 +4,7 @@ WS = [' ', '\\T', '\\N', '\\R', '  ']
 def ws(p=0.25):
     return rnd.choice(WS) if rnd.random()<p else ''
 def name():
-    return rnd.choice(['a','b','ab','a1','_x','é','☺','a b','','0',"a'b",'a"b','\\\\','\\n','\\/','\\u0041','\\uD83D\\uDE00','\\u00e9','\\ n','x y'])
+    return rnd.choice(['a','b','ab','a1','_x','é','☺','a b','','0',"a'b",'a"b','\\\\','\\n','\\/','\\u0041','\\uD83D\\uDE00','\\u00e9','\\ n','x y','. ','Mr. X',' .','a .b','[ 0]','a, b','@ .a','length (','a == b'])
 def strlit():
     n = name()
     q = rnd.choice(["'", '"'])
@@ -86,8 +86,16 @@ def mutate(s):
     if r<0.6: return s[:i]+rnd.choice([' ','\\T',',','.','[',']','(',')','?','!','@','$','*',':','0','1','a',"'",'"','\\\\','=','<','&','|','-'])+s[i:]
     if r<0.8: return s[:i]+rnd.choice(['x','1',' ',']'])+s[i+1:]
     return s
+def longtext():
+    # long runs of multi-byte characters: error messages and diagnostics that cut the query text at a byte offset must not split a character
+    return ''.join(rnd.choice(['é', 'é', '☺', '𝄞', 'a', '퟿', 'ß']) for _ in range(rnd.choice([15, 24, 40, 47, 48, 49, 64, 100])))
+def near_error():
+    u = longtext()
+    return rnd.choice(['$. ' + u, '$.. ' + u, '$[?@. ' + u + ' == 1]', '$[?match (@.a,"' + u + '")]', '$.' + u + ' .', '$[?@.' + u + '. x]', "$['" + u + "' x]", '$.' + u + '[', '$[?@.' + u + ' = 1]',
+                       '$[?length (@.' + u + ')==1]', "$[?@.a=='" + u + "' &]", '$.' + u + '..', '$ .' + u + ' ', '$[?count(@.' + u + ' )>1 |]', '$..[' + u + ']', u, '$[' + "'" + u, '$.' + u, "$['" + u + "']", '$[?@.' + u + "=='" + u + "']"])
 n = int(sys.argv[2]) if len(sys.argv)>2 else 1000
 for k in range(n):
+    if rnd.random() < 0.03: print(near_error()); continue
     q = query()
     if rnd.random()<0.35: q = mutate(q)
     if rnd.random()<0.05: q = ws(1)+q
